@@ -42,7 +42,7 @@ class RepeaterStorage:
         Returns:
 
         """
-        if len(patch):
+        if rpt is not None and len(patch):
             self.__repeaters.update({rpt.id: rpt.patch(patch=patch)})
         return rpt
 
